@@ -86,18 +86,22 @@ func VerifC04_Terminator() {
 		pre = []string{"-z=" + x}
 	}
 	vPhase("run")
-	args := cat(pre, []string{"--", t1, t2})
+	tail := []string{t1, t2}
+	if vThorough() {
+		tail = append(tail, vString("t3")) // a third unconstrained tail token
+	}
+	args := cat(pre, []string{"--"}, tail)
 	remaining, err := opt.Parse(args)
 	vObserve("err", err)
 	vObserve("remaining", remaining)
 	vAssert("no-error", err == nil)
 	if ro && ctx == 1 {
 		// require-order stopped at the positional: the rest, `--` included, is handed over verbatim
-		vAssert("remaining-exact", eqStrs(remaining, cat(keep, []string{"--", t1, t2})))
+		vAssert("remaining-exact", eqStrs(remaining, cat(keep, []string{"--"}, tail)))
 	} else {
-		vAssert("remaining-exact", eqStrs(remaining, cat(keep, []string{t1, t2})))
+		vAssert("remaining-exact", eqStrs(remaining, cat(keep, tail)))
 	}
-	vAssert("tail-verbatim", endsWith(remaining, t1, t2))
+	vAssert("tail-verbatim", endsWith(remaining, tail...))
 	// nothing behind `--` takes effect
 	vAssert("flag", *flag == (ctx == 2))
 	vAssert("flag-called", opt.Called("flag") == (ctx == 2))
@@ -173,4 +177,76 @@ func VerifC04_MissingMandatory() {
 		vAssert("failed-parse-nil-remaining", remaining == nil)
 	}
 	vReach("returned")
+}
+
+// Relational, for ANY token before the terminator: the same command line with
+// and without a two-token tail behind `--` gives the same error-ness, the same
+// option values and Called state, and the remaining list only grows by the
+// tail - unless `--` itself was taken as a value (the exempted case).
+func VerifC04_RawBefore() {
+	mode := vInt("mode", 0, 2)
+	um := 2 // quick tier: pass-through (parses most); all three unknown modes in the thorough tier
+	if vThorough() {
+		um = vInt("um", 0, 2)
+	}
+	ro := vBool("ro")
+	vBound("runes", 2)
+	t0 := vString("t0")
+	t1, t2 := vString("t1"), vString("t2")
+	define := func() relProg { return relDefine(mode, um, ro) }
+	a, b, c := define(), define(), define()
+	vPhase("run")
+	// the exempted case: the token alone still misses a mandatory value (or is
+	// rejected for another reason) - then `--` may legitimately become that value
+	_, errC := c.opt.Parse([]string{t0})
+	if errC != nil {
+		vReach("exempt")
+		return
+	}
+	remB, errB := b.opt.Parse([]string{t0, "--"})
+	remA, errA := a.opt.Parse([]string{t0, "--", t1, t2})
+	vObserve("errB", errB != nil)
+	vObserve("remB", remB)
+	vAssert("same/error-ness", (errA == nil) == (errB == nil))
+	if errA != nil || errB != nil {
+		return
+	}
+	vAssert("remaining-grows-by-the-tail", eqStrs(remA, cat(remB, []string{t1, t2})))
+	relSame(a, b)
+	vReach("compared")
+}
+
+// relProg: the program of the relational raw harnesses (C04, C09): one-letter
+// names, one option of each consuming behaviour, a command with a flag.
+type relProg struct {
+	opt  *GetOpt
+	b    *bool
+	s    *string
+	so   *string
+	l    *[]string
+	i    *int
+	cmdx *bool
+}
+
+func relDefine(mode, um int, ro bool) relProg {
+	opt := New()
+	setMode(opt, mode)
+	setUnknown(opt, um)
+	if ro {
+		opt.SetRequireOrder()
+	}
+	p := relProg{opt: opt}
+	p.b = opt.Bool("b", false)
+	p.s = opt.String("s", "d")
+	p.so = opt.StringOptional("o", "do")
+	p.l = opt.StringSlice("l", 1, 2)
+	p.i = opt.Int("i", 5)
+	cmd := opt.NewCommand("c", "")
+	p.cmdx = cmd.Bool("x", false)
+	return p
+}
+
+// relSame asserts that two runs left the same option state behind.
+func relSame(a, b relProg) {
+	relSame(a, b)
 }
